@@ -150,13 +150,13 @@ def _site(tb):
     return site
 
 
-def _call_once(fn):
+def _call_once(fn, cpu_limit=None):
     """one guarded execution -> outcome record"""
     o = {'kind': '', 'val': False, 'exc': '', 'site': '', 'mnf': False, 'msg': ''}
     old = signal.signal(signal.SIGALRM, _on_alarm)
     oldp = signal.signal(signal.SIGPROF, _on_alarm)
     # the timers re-fire: a bare except inside pyx12 cannot swallow the interruption for good
-    signal.setitimer(signal.ITIMER_PROF, RUN_CPU_LIMIT, 0.2)
+    signal.setitimer(signal.ITIMER_PROF, cpu_limit or RUN_CPU_LIMIT, 0.2)
     signal.setitimer(signal.ITIMER_REAL, RUN_LIMIT, 0.2)
     try:
         try:
@@ -190,11 +190,38 @@ def _call_once(fn):
     return o
 
 
+CONFIRM = [None]      # set to a CPU limit while time-outs are re-examined in the parent process
+
+
 def _call(fn):
+    if CONFIRM[0]:
+        return _call_once(fn, CONFIRM[0])
     o = _call_once(fn)
     if o['kind'] == 'timeout':
         o = _call_once(fn)          # only a repeated time-out counts (a stalled, overloaded machine is not an endless loop)
     return o
+
+
+def confirm_timeouts(recs, byid):
+    """time-outs seen in the workers are re-examined one by one in the parent (no competing workers of our own, a
+    four times larger CPU budget); a call that now returns is recorded with that outcome"""
+    pend = sorted([(len(byid[r['id']]['text']), r['id'], k) for r in recs for k, x in enumerate(r['runs']) if x['o']['kind'] == 'timeout'])
+    if not pend:
+        return 0, 0
+    recid = {r['id']: r for r in recs}
+    CONFIRM[0] = 4 * RUN_CPU_LIMIT
+    confirmed = 0
+    try:
+        for n, (_, did, k) in enumerate(pend):
+            if n >= 3 and confirmed:
+                break                   # the implementation really hangs: the remaining time-outs stand as recorded
+            x = recid[did]['runs'][k]
+            o = execute(byid[did]['text'], x['api'], x['sinks'], x['cs'], x['loop'])
+            x['o'] = o
+            confirmed += o['kind'] == 'timeout'
+    finally:
+        CONFIRM[0] = None
+    return len(pend), confirmed
 
 
 def run_x12n(text, sinks, cs):
@@ -521,6 +548,8 @@ def run(tier, replay=None):
     batches = [([docs[i] for i in b], tier, seed) for b in vlib.chunked(order, size)]
     recs = [r for part in vlib.parallel_map(_run_batch, batches) for r in part]
     recs.sort(key=lambda r: r['id'])
+    byid = {d['id']: d for d in docs}
+    chk.extra['timeouts_seen_in_workers_then_confirmed'] = list(confirm_timeouts(recs, byid))
     vb = [(b, consts) for b in vlib.chunked(recs, max(100, len(recs) // vlib.NCPU + 1))]
     results = vlib.parallel_map(_validate_batch, vb)
     byid = {d['id']: d for d in docs}
